@@ -29,5 +29,5 @@ def run(ctx):
         "positions of errors are compared as (file name, line, column) in the order of scanner.ErrorList.Sort, as go/scanner does (line directives included)",
         "stack exhaustion on multi-megabyte nesting is probed in child processes in the thorough tier only",
     ]
-    common.standard(ctx, "GopModel.Props.C13", "c13", 3000, 40000, RULE,
+    common.standard(ctx, "GopModel.Props.C13", "c13", 2000, 40000, RULE,
                     extract=("parserrecover",), driver="drv_parser")
